@@ -84,7 +84,7 @@ def main():
             "replay_cmd_template": "./check replay {path}",
             "engine": engine,
             "level_claimed": {"category": "model_checking", "text": text, "design_ref": f"DESIGN.md section {ref}"},
-            "level_note": note,
+            "level_note": note + " Beyond the space named above the check crosses small exhaustive spaces with the standing dimensions of DESIGN.md section 11.5 (histories of rows, callers that carry on after error items, coinciding names and values, one loaded test used twice, iterators advanced with nth, dropped mid-cycle or moved to another thread, drivers with io::Error, signal lists cloned from loaded tests) and holds a few cases far beyond the enumerated sizes; the evidence file lists every space with its size.",
             "technique": technique,
         })
     na = [{"property_id": f"C{i:02d}", "reason": NOT_YET} for i in range(1, 21) if f"C{i:02d}" not in CHECKS]
